@@ -6,7 +6,8 @@ dst = f"/verif/seeded/{prop}-{name}"
 os.makedirs(dst, exist_ok=True)
 src = f"{wt}/seeded/{n}"
 for f in os.listdir(src):
-    shutil.copy(os.path.join(src, f), os.path.join(dst, f))
+    if os.path.isfile(os.path.join(src, f)):
+        shutil.copy(os.path.join(src, f), os.path.join(dst, f))
 meta = {"property": prop, "breaks": open(os.path.join(src, "notes.md")).read().split("\n\n")[0][:600] if os.path.exists(os.path.join(src, "notes.md")) else "",
         "needs_to_manifest": needs, "confirmed_by": ran, "detected_by": caught, "origin": "independent sub-agent given only the property text"}
 json.dump(meta, open(os.path.join(dst, "meta.json"), "w"), indent=1)
